@@ -116,8 +116,35 @@ JudgeC01(e) ==
            ELSE ideal
     [] OTHER -> NAv
 
+\* C09: generator options never change the wire.  The specification has no
+\* notion of options: under every option set the bytes must be the reference
+\* bytes and every decoder (incl. MustUnmarshalBebop) must return the value.
+JudgeC09(e) ==
+  LET c == CaseOf(e)  S == SchemaOf(c)  t == TypeOf(c) IN
+  CASE e.ev = "enc" -> JudgeC03(e)
+    [] e.ev = "dec" ->
+        FirstBad(<<
+          <<e.res = "nil", e.api \o " fails on a valid encoding under options " \o ToString(c.opts) \o ": " \o e.res>>,
+          <<e.res # "nil" \/ ValOf(e) = Norm(S, t, c.v),
+            e.api \o " under options " \o ToString(c.opts) \o " decodes a valid encoding to a different value">>,
+          <<e.res # "nil" \/ ~Has(e, "consumed") \/ e.consumed = Len(InOf(e)), "DecodeBebop consumed a different number of bytes">> >>)
+    [] OTHER -> NAv
+
+\* C12: whatever the generator accepts compiles
+JudgeC12(e) ==
+  LET c == CaseOf(e)  sch == Schemas[c.si] IN
+  CASE e.ev = "generate" ->
+        IF ~e.accepted THEN NAv
+        ELSE IF e.compiles THEN OKv
+        ELSE IF AsIsUncompilableS(Devs, sch.defs, sch.ft, sch.ctx) # ""
+             THEN Known(AsIsUncompilableS(Devs, sch.defs, sch.ft, sch.ctx), "generated code does not compile")
+        ELSE Bad("accepted schema generates Go code that does not compile")
+    [] OTHER -> NAv
+
 Judge(e) ==
   CASE Prop = "C01" -> JudgeC01(e)
+    [] Prop = "C12" -> JudgeC12(e)
+    [] Prop = "C09" -> JudgeC09(e)
     [] Prop = "C02" -> JudgeC02(e)
     [] Prop = "C03" -> JudgeC03(e)
     [] OTHER -> NAv
